@@ -223,6 +223,19 @@ def gen_registry():
                 'SpaceSeparatedListOfStrings', 'SpaceSeparatedSetOfStrings', 'CommaSeparatedListOfStrings',
                 'CommaSeparatedSetOfStrings'}
 
+    # --- ircutils.isChannel defaults (which names the start-up scan and getSpecific take for channels)
+    iru = parse('src/ircutils.py')
+    isch = find_func(iru, 'isChannel')
+    argn = [a.arg for a in isch.args.args]
+    defs = dict(zip(argn[len(argn) - len(isch.args.defaults):], isch.args.defaults))
+    if 'chantypes' not in defs or 'channellen' not in defs:
+        raise ExtractionError('ircutils.isChannel: expected defaults for chantypes and channellen')
+    chantypes = _str_const(defs['chantypes'], 'isChannel chantypes default')
+    channellen = literal(defs['channellen'], 'isChannel channellen default')
+    if not isinstance(channellen, int):
+        raise ExtractionError('isChannel channellen default is not an int')
+    isch_src = ast.unparse(_one([n for n in ast.walk(isch) if isinstance(n, ast.Return)], 'isChannel return').value)
+
     # --- finite tables of conf.py validators
     oss_tables = []
     for cdef in sorted((n for n in ast.walk(conf) if isinstance(n, ast.ClassDef)), key=lambda c: c.lineno):
@@ -348,6 +361,9 @@ def gen_registry():
       llist('(%s, %s)' % (lstring(n), llist(lstring(m) for m in ms)) for n, ms in c_over))
     d('conf.py value classes whose logic is inside the Lean model', 'modelledConfClasses', 'List String',
       llist(lstring(n) for n, _ in cclasses if n in MODELLED_CONF))
+    d('ircutils.isChannel: default chantypes', 'chanTypes', 'Py.Str', lstr(chantypes))
+    d('ircutils.isChannel: default channellen', 'chanLen', 'Nat', str(int(channellen)))
+    d('ircutils.isChannel: source of the returned expression', 'isChannelSrc', 'String', lstring(isch_src))
     d('validStrings of the conf.py subclasses of OnlySomeStrings', 'onlySomeStringsTables', 'List (String × List Py.Str)',
       llist('(%s, %s)' % (lstring(n), llist(lstr(x) for x in t)) for n, t in oss_tables))
     d('conf.ValidPrefixChars: the allowed characters', 'validPrefixChars', 'Py.Str', lstr(prefix_chars))
